@@ -849,7 +849,7 @@ impl Mp4TrackWriter {
     ) -> Result<u64> {
         self.chunk_buffer.extend_from_slice(&sample.bytes);
         self.chunk_samples += 1;
-        self.chunk_duration += sample.duration;
+        self.chunk_duration = self.chunk_duration.saturating_add(sample.duration);
         self.update_sample_sizes(sample.bytes.len() as u32);
         self.update_sample_times(sample.duration);
         self.update_rendering_offsets(sample.rendering_offset);
